@@ -200,7 +200,9 @@ func (s *DisabledExp) makeDisabledExp(disable, inner Exp) (Exp, error) {
 			}
 			allSame := true
 			var val Exp
-			for _, mv := range dv.Value {
+			keys := sortedKeys(dv.Value)
+			for _, k := range keys {
+				mv := dv.Value[k]
 				if val == nil {
 					val = mv
 				} else if val.equal(mv) != nil {
@@ -212,9 +214,9 @@ func (s *DisabledExp) makeDisabledExp(disable, inner Exp) (Exp, error) {
 				return s.makeDisabledExp(val, inner)
 			}
 			m := make(map[string]Exp, len(dv.Value))
-			for k, dvi := range dv.Value {
+			for _, k := range keys {
 				var err error
-				m[k], err = s.makeDisabledExp(dvi, inner)
+				m[k], err = s.makeDisabledExp(dv.Value[k], inner)
 				if err != nil {
 					return s, err
 				}
